@@ -50,6 +50,9 @@ type Fate struct {
 type AppStep struct {
 	AfterUs int `json:"after_us"`
 	Tag     int `json:"tag"`
+	// AfterConn > 0 (real clock): the step first waits until the client has taken its AfterConn-th OK connect response
+	// (1 = the constructor's), then AfterUs - a Send aimed at the moments right behind a reconnect
+	AfterConn int `json:"after_conn,omitempty"`
 }
 
 // GwStep is an unsolicited action of the gateway / network at a scripted time.
@@ -126,7 +129,7 @@ type Plan struct {
 	// FailHb: indices (counting the connection-state requests the client hands to its socket, from 0) whose
 	// transmission the socket refuses with an error: that heartbeat has failed there and then
 	FailHb []int `json:"fail_hb,omitempty"`
-	Group       bool  `json:"group,omitempty"`
+	Group  bool  `json:"group,omitempty"`
 }
 
 // ---------------------------------------------------------------------------------- trace
@@ -375,9 +378,10 @@ type Sim struct {
 	mu            sync.Mutex
 	nConn, nHb    int
 	nAck, nDisc   int
-	nDiscRes      int // disconnect responses handed to the socket so far
-	nHbOut        int // connection-state requests handed to the socket so far
-	behind        int // requests to put behind the next OK connect response (GwStep.Behind) and their first tag
+	connTaken     int32 // OK connect responses the client has taken (atomic)
+	nDiscRes      int   // disconnect responses handed to the socket so far
+	nHbOut        int   // connection-state requests handed to the socket so far
+	behind        int   // requests to put behind the next OK connect response (GwStep.Behind) and their first tag
 	behindTag     int
 	curChan       int // channel of the last OK connect response injected
 	expIn         int // reference receiver: expected sequence number of the next request from the gateway
@@ -790,7 +794,7 @@ func handoffPending() bool {
 
 // Result is what the executor hands to the oracles besides the trace.
 type Result struct {
-	Untaken int // frames injected that the client had not taken from its socket when the cleanup began
+	Untaken       int // frames injected that the client had not taken from its socket when the cleanup began
 	ConnErr       string
 	Events        []Ev
 	InboundClosed bool // observed by the consumer or the final drain
@@ -812,6 +816,9 @@ func (s *Sim) Run() *Result {
 	s.Sock = common.NewMemSock(local)
 	s.Sock.OnSend = s.onSend
 	s.Sock.OnDelivered = func(svc knxnet.Service) {
+		if cr, ok := svc.(*knxnet.ConnRes); ok && cr.Status == knxnet.NoError {
+			atomic.AddInt32(&s.connTaken, 1)
+		}
 		e := Ev{K: "dlv"}
 		describe(&e, svc)
 		s.Tr.add(e)
@@ -843,6 +850,11 @@ func (s *Sim) Run() *Result {
 		go func() {
 			defer lanes.Done()
 			for _, st := range steps {
+				if st.AfterConn > 0 && !s.Bubble {
+					for until := time.Now().Add(3 * time.Second); atomic.LoadInt32(&s.connTaken) < int32(st.AfterConn) && time.Now().Before(until); {
+						time.Sleep(20 * time.Microsecond)
+					}
+				}
 				time.Sleep(us(st.AfterUs))
 				s.doSend(i+1, st.Tag)
 			}
